@@ -312,6 +312,8 @@ extern "C" int vs_active(void) { return active; }
 extern "C" int vs_nthreads(void) { return nth; }
 extern "C" int vs_thread_state(int id) { return ths[id]->st; }
 extern "C" int vs_is_scenario_thread(int id) { return id >= 0 && id < nth && ths[id]->scenario; }
+extern "C" long vs_futex_blocked_total(void) { return n_fblocked; }
+extern "C" long vs_futex_woken_total(void) { return n_fwoken; }
 extern "C" int vs_blocked_count(void) { int c = 0; for (int i = 0; i < nth; i++) if (ths[i]->st == BFUTEX) c++; return c; }
 
 // ---------------------------------------------------------------------------------------------
